@@ -618,7 +618,7 @@ func runTrial(r *vlib.Run, mode string, trial int, rng *rand.Rand) {
 					write(ti, "del", p[:2], 0)
 				case x < 93:
 					write(ti, "del", p[:1], 0)
-				case x < 96:
+				case x < 97:
 					write(ti, "reset", nil, 0)
 				default:
 					write(ti, "remove", nil, 0)
